@@ -53,6 +53,14 @@ impl QueryMut for InsertAliasesQuery {
                     }
 
                     let db_id = db.db_id(id)?;
+
+                    if db_id.0 < 0 {
+                        return Err(DbError::query(
+                            DbErrorType::NotAllowed,
+                            "Alias for an edge is not allowed",
+                        ));
+                    }
+
                     db.insert_alias(db_id, alias)?;
                     result.result += 1;
                 }
